@@ -99,7 +99,7 @@ CHECKS = {
          "DESIGN.md §4 C15"),
  "C16": ("fault_enumeration",
          "runtime monitoring: panic hook + tracking allocator + process supervisor over structure-aware decoder inputs (thorough: also Miri / ASan / valgrind memcheck on the corpus)",
-         "Every Deserialize type of both crates and wrappers around the public element codecs are fed every length-prefix mutation (0, n-1, n+1 with and without valid extra elements, 2n, 2^24, 2^32, 2^40 with 64 elements, 2^60, 2^64-1), every atom replaced by invalid / boundary encodings, truncation at and inside every atom, extensions, random strings, random tails and bit flips. One input = one supervised case: panics are recorded by the hook, allocations by a tracking allocator (largest single request <= 16*len+64KiB, peak <= 32*len+256KiB), and a worker death (abort) is attributed to the open case by the supervisor.",
+         "Every Deserialize type of both crates and wrappers around the public element codecs are fed every length-prefix mutation (0, n-1, n+1 with and without valid extra elements, 2n, 2^24, 2^32, 2^40 with 64 elements, 2^60, 2^64-1), every atom replaced by invalid / boundary encodings, truncation at and inside every atom, extensions, random strings, random tails and bit flips. One input = one supervised case: panics are recorded by the hook, allocations by a tracking allocator (largest single request <= 16*len+1MiB, peak <= 32*len+2MiB; 1 MiB is the constant pre-allocation cap serde itself uses for untrusted size hints), and a worker death (abort) is attributed to the open case by the supervisor.",
          "Allocation bounds are the harness's reading of 'out of proportion' (honest decodes stay below 2.1x input length). Sanitizer layers cover only what Miri/ASan/memcheck can execute in the time budget (see DESIGN.md I8).",
          "DESIGN.md §4 C16"),
  "C17": ("exploration",
